@@ -587,22 +587,64 @@ def walk_outcome(f, g, atom):
     return out
 
 
-def check_trimmer(prog, res):
-    """ezc3d::removeTrailingSpaces exists, takes the string by non-const reference and only ever
-    removes characters from the end (pop_back/erase/resize), under a test of the last character
-    against ' '"""
+def check_trimmer(prog, res, rule='trimmed-name'):
+    """ezc3d::removeTrailingSpaces takes the string by non-const reference and removes every trailing
+    space.  Two idioms are known: (A) a loop that pops the last character while it is a space;
+    (B) erase from find_last_not_of(' ') + 1 — which must also empty a string made only of spaces
+    (unguarded erase: npos + 1 == 0, or an explicit clear on the npos branch).  Any other shape is
+    UNDECIDED."""
     f = prog.fn('ezc3d::removeTrailingSpaces', nparams=1)
+    R = Renderer(f)
     if not f.params[0]['type'].endswith('&') or f.params[0]['type'].startswith('const '):
-        res.viol('trimmed-name', 'removeTrailingSpaces signature', f.loc(), 'trimmer no longer modifies its argument in place', function=f.sig, expr='sig')
+        res.viol(rule, 'removeTrailingSpaces signature', f.loc(), 'trimmer no longer modifies its argument in place', function=f.sig, expr='sig')
         return
     muts = [n for n in f.calls() if f.call_obj(n) is not None and not n['callee'].get('const') and n['callee'].get('classq') == 'std::basic_string'
             and n['callee']['name'] not in ('operator[]', 'at', 'back', 'front', 'begin', 'end')]
     names = sorted({n['callee']['name'] for n in muts})
+    has_space = any((n['k'] == 'CharacterLiteral' and n['v'] == 32) or (n['k'] == 'StringLiteral' and n.get('v') == ' ') for n in f.nodes)
+    finds = [n for n in f.calls() if n['callee']['name'] == 'find_last_not_of' and R.render(f.call_obj(n)) == 'arg0']
+    if finds and names and set(names) <= {'erase', 'resize', 'clear', 'operator=', 'assign'}:
+        # idiom B
+        if not has_space:
+            res.viol(rule, 'removeTrailingSpaces body', f.loc(), 'no space character in the search', function=f.sig, expr='space')
+            return
+        NPOS = '18446744073709551615'
+        guarded = None
+        for n in f.all_nodes({'IfStmt'}):
+            c = R.render(n['cond'])
+            if NPOS in c and ('!=' in c or '==' in c):
+                guarded = n
+        if guarded is None:
+            er = [m for m in muts if m['callee']['name'] == 'erase']
+            ok = len(er) == 1 and re.search(r'\+ 1\)?$|^\(1 \+', R.render(er[0]['args'][0])) is not None
+            if ok:
+                res.ok(rule, 'removeTrailingSpaces: erase(find_last_not_of(\' \') + 1)', f.loc(), 'unguarded: npos + 1 == 0 empties an all-space string', function=f.sig, expr='trimmer', nontrivial=False)
+            else:
+                res.undecided(rule, 'removeTrailingSpaces body', f.loc(), 'find_last_not_of idiom in a form the rule does not know', function=f.sig, expr='trimmer')
+            return
+        c = R.render(guarded['cond'])
+        npos_branch = guarded.get('else') if '!=' in c else guarded['then']
+        clears = []
+        if npos_branch is not None:
+            clears = [f.nodes[x] for x in f.descendants(npos_branch) if f.nodes[x]['k'] in ('CXXMemberCallExpr', 'CXXOperatorCallExpr') and 'callee' in f.nodes[x]
+                      and f.nodes[x]['callee']['name'] in ('clear', 'erase', 'resize', 'operator=', 'assign')]
+        if clears:
+            res.ok(rule, 'removeTrailingSpaces: find_last_not_of with the all-space case handled', f.loc(), function=f.sig, expr='trimmer', nontrivial=False)
+        else:
+            res.viol(rule, 'removeTrailingSpaces: strings made only of spaces', f.loc(guarded['id']),
+                     'the erase is skipped when find_last_not_of returns npos, so a string consisting only of spaces is left untouched instead of becoming empty',
+                     function=f.sig, expr='trimmer-allspace')
+        return
     if not muts or any(nm not in ('pop_back', 'erase', 'resize') for nm in names):
-        res.viol('trimmed-name', 'removeTrailingSpaces body', f.loc(), 'trimmer mutates the string with %s' % names, function=f.sig, expr='body')
+        res.undecided(rule, 'removeTrailingSpaces body', f.loc(), 'trimmer mutates the string with %s: not an idiom the rule knows' % names, function=f.sig, expr='body')
         return
-    has_space_test = any(n['k'] == 'CharacterLiteral' and n['v'] == 32 for n in f.nodes)
-    if not has_space_test:
-        res.viol('trimmed-name', 'removeTrailingSpaces body', f.loc(), 'no comparison with the space character', function=f.sig, expr='space')
+    if not has_space:
+        res.viol(rule, 'removeTrailingSpaces body', f.loc(), 'no comparison with the space character', function=f.sig, expr='space')
         return
-    res.ok('trimmed-name', 'removeTrailingSpaces only pops trailing characters under a test against \' \'', f.loc(), function=f.sig, expr='trimmer', nontrivial=False)
+    # idiom A: the removal sits in a loop and is guarded by "last character is a space"
+    pops = [m for m in muts if m['callee']['name'] in ('pop_back', 'erase', 'resize')]
+    in_loop = all(any(f.nodes[a]['k'] in ('ForStmt', 'WhileStmt', 'DoStmt') for a in f.ancestors(m['id'])) for m in pops)
+    if not in_loop:
+        res.viol(rule, 'removeTrailingSpaces body', f.loc(pops[0]['id']), 'only one character can be removed: the removal is not inside a loop', function=f.sig, expr='loop')
+        return
+    res.ok(rule, 'removeTrailingSpaces pops trailing characters in a loop under a test against \' \'', f.loc(), function=f.sig, expr='trimmer', nontrivial=False)
